@@ -450,4 +450,150 @@ theorem connOut_nat (info' : Nat → Pipeline.Info) (c : Pipeline.Conn) (kl : Li
 
 end Conn
 
+-- ====================================================================== the main loop
+section Loop
+open TLX.Spec.Demux TLX.Lemmas.ExportProps
+
+variable (mask : Quic.Dissect.MaskFn) (H : Crypto.Prims) (P : Cipher.Prims) (ρ : Nat → Nat)
+
+def itemRetag {κ : Type} : Item κ → Item κ
+  | .dsb ks => .dsb ks
+  | .frame p => .frame (retag ρ p)
+
+def sessRetag (s : TlsSess Pipeline.Conn) : TlsSess Pipeline.Conn := { s with st := connRetag ρ s.st }
+
+/-- the classification of an item does not read the tag -/
+theorem classify_retag {κ : Type} (o : Opts) (it : Item κ) :
+    classify o (itemRetag ρ it) =
+      match classify o it with
+      | .keys ks => .keys ks
+      | .tls p => .tls (retag ρ p)
+      | .quic p b0 r => .quic (retag ρ p) b0 r
+      | .ignore w => .ignore w := by
+  cases it with
+  | dsb ks => rfl
+  | frame p =>
+    obtain ⟨l4, src, dst, payload, csumOk, tag⟩ := p
+    simp only [itemRetag, classify, retag]
+    cases l4 with
+    | other => rfl
+    | tcp =>
+      simp only
+      by_cases h1 : payload.length = 0
+      · simp [h1]
+      · by_cases h2 : (o.checksumTest && !csumOk) = true <;> simp [h1, h2]
+    | udp =>
+      simp only
+      cases payload with
+      | nil => rfl
+      | cons b0 r =>
+        simp only
+        by_cases h2 : (o.checksumTest && !csumOk) = true
+        · simp [h2]
+        · by_cases h3 : ((b0.toNat &&& 0x40) >>> 6 = 1 || o.greasy) = true <;> simp [h2, h3]
+
+theorem tcpView_retag {κ : Type} (o : Opts) (xs : List (Item κ)) :
+    tcpView o (xs.map (itemRetag ρ)) = (tcpView o xs).map (retag ρ) := by
+  induction xs with
+  | nil => rfl
+  | cons it xs ih =>
+    simp only [tcpView, List.map_cons, List.filterMap_cons, classify_retag] at ih ⊢
+    cases classify o it <;> simp [ih]
+
+theorem dsbOnly_retag {κ : Type} (xs : List (Item κ)) : dsbOnly (xs.map (itemRetag ρ)) = dsbOnly xs := by
+  induction xs with
+  | nil => rfl
+  | cons it xs ih =>
+    simp only [dsbOnly, List.map_cons, List.flatMap_cons] at ih ⊢
+    rw [ih]
+    cases it <;> rfl
+
+theorem quicView_retag {κ : Type} (o : Opts) (xs : List (Item κ)) :
+    ∀ kl, quicView o kl (xs.map (itemRetag ρ)) = (quicView o kl xs).map fun x => { x with p := retag ρ x.p } := by
+  induction xs with
+  | nil => intro kl; rfl
+  | cons it xs ih =>
+    intro kl
+    simp only [List.map_cons, quicView, classify_retag]
+    cases classify o it with
+    | keys ks => exact ih _
+    | tls p => exact ih _
+    | ignore w => exact ih _
+    | quic p b0 r => simp only [List.map_cons, ih]
+
+theorem tlsHandle_nat (info' : Nat → Pipeline.Info) (o : Opts) (ss : List (TlsSess Pipeline.Conn)) (p : Pkt) :
+    tlsHandle (Pipeline.tlsMachine H P info') o (ss.map (sessRetag ρ)) (retag ρ p) =
+      (tlsHandle (Pipeline.tlsMachine H P (info' ∘ ρ)) o ss p).map (sessRetag ρ) := by
+  induction ss with
+  | nil =>
+    have hc : candidate o (retag ρ p) = candidate o p := rfl
+    simp only [tlsHandle, List.map_nil, hc]
+    cases candidate o p with
+    | true => rfl
+    | false => rfl
+  | cons s rest ih =>
+    simp only [tlsHandle, List.map_cons]
+    have : (sessRetag ρ s).matches (retag ρ p) = s.matches p := rfl
+    rw [this]
+    cases s.matches p with
+    | true =>
+      simp only [if_true, List.map_cons, List.cons.injEq, and_true]
+      simp [sessRetag, connRetag, Pipeline.tlsMachine, List.map_append]
+    | false => simp only [Bool.false_eq_true, if_false, ih, List.map_cons]
+
+theorem tlsRun_nat (info' : Nat → Pipeline.Info) (o : Opts) (pkts : List Pkt) :
+    ∀ ss, tlsRun (Pipeline.tlsMachine H P info') o (ss.map (sessRetag ρ)) (pkts.map (retag ρ)) =
+      (tlsRun (Pipeline.tlsMachine H P (info' ∘ ρ)) o ss pkts).map (sessRetag ρ) := by
+  induction pkts with
+  | nil => intro ss; rfl
+  | cons p ps ih =>
+    intro ss
+    simp only [tlsRun, List.map_cons, List.foldl_cons] at ih ⊢
+    rw [tlsHandle_nat, ih]
+
+/-- **TLS part of a run.** Items with renamed tags and the table `info'` export the same conversations, frame by frame,
+    as the original items with the table `info' ∘ ρ`. -/
+theorem tlsFrames_nat (info' : Nat → Pipeline.Info) (o : Opts) (fk : Option (List Keylog.Key))
+    (xs : List (Item Keylog.Key)) :
+    tlsFrames H P info' o fk (xs.map (itemRetag ρ)) = tlsFrames H P (info' ∘ ρ) o fk xs := by
+  unfold tlsFrames tlsConvs keysOf
+  rw [tcpView_retag, dsbOnly_retag]
+  have := tlsRun_nat H P ρ info' o (tcpView o xs) []
+  simp only [List.map_nil] at this
+  rw [this, List.map_map]
+  apply List.map_congr_left
+  intro s _
+  simp only [Function.comp, convFrames, sessRetag]
+  rw [connOut_nat]
+
+/-! #### QUIC: the machine reads `info p.tag` and nothing else of the tag -/
+
+theorem quicHandleH_nat (info' : Nat → Pipeline.Info) (o : Opts) (kl : List Keylog.Key) (h : Hdr)
+    (ss : List (QuicSess QuicPipeline.QConn)) (p : Pkt) :
+    quicHandleH (QuicPipeline.quicMachine mask H P info') o kl h ss (retag ρ p) =
+      quicHandleH (QuicPipeline.quicMachine mask H P (info' ∘ ρ)) o kl h ss p := by
+  unfold quicHandleH
+  split
+  · rfl
+  · induction ss with
+    | nil => rfl
+    | cons s rest ih =>
+      simp only [quicLoop]
+      have ht : quicTake (QuicPipeline.quicMachine mask H P info') h (retag ρ p) s =
+          quicTake (QuicPipeline.quicMachine mask H P (info' ∘ ρ)) h p s := rfl
+      rw [ht, ih]
+      rfl
+
+theorem quicRun_nat (info' : Nat → Pipeline.Info) (o : Opts) (X : List (QIn Keylog.Key)) :
+    ∀ ss, quicRun (QuicPipeline.quicMachine mask H P info') o ss (X.map fun x => { x with p := retag ρ x.p }) =
+      quicRun (QuicPipeline.quicMachine mask H P (info' ∘ ρ)) o ss X := by
+  induction X with
+  | nil => intro ss; rfl
+  | cons x X ih =>
+    intro ss
+    simp only [quicRun, List.map_cons, List.foldl_cons] at ih ⊢
+    rw [quicHandleH_nat, ih]
+
+end Loop
+
 end TLX.Lemmas.TagNat
